@@ -731,7 +731,6 @@ static void exec_asm(Run &R, TaskRt &T, int ti, int oi, const Op &op) {
     R.st.asm_unspec++;
     m.offset_unspec = true;
     m.offset_explicit = false;
-    if (a.counting && (m.chunk > 0)) m.chunk_unknown = true;
     m.segs.clear();
     refresh_mirror(I, cv, 0);
     coverage_note(sk, mix64(sk, (uint64_t)op.kind * 16 + 15));
